@@ -700,7 +700,7 @@ static CCase gen_c() {
     // uncertainty
     if (c.autoi) {
         c.rule = (unsigned) W({{2, 2}, {1, 3}, {2, 5}, {1, 6}, {3, 9}, {8, 19}, {3, 27}, {2, 28}, {3, 29}, {4, 99}, {2, 999}, {1, 9999}, {1, R(2, 200)}, {1, R(201, 999999999)}});
-        int k = W({{20, 0}, {30, 1}, {30, 2}, {10, 3}, {10, 4}});
+        int k = W({{20, 0}, {30, 1}, {30, 2}, {10, 3}, {10, 4}, {3, 5}});
         int j = W({{6, R(-8, 3)}, {2, R(-25, 12)}, {1, R(-200, 200)}});
         std::string rs = std::to_string(c.rule), rs1 = std::to_string(c.rule + 1);
         switch (k) {
@@ -709,6 +709,8 @@ static CCase gen_c() {
         case 2: c.su = sd(P(33) ? rs1 + "e" + std::to_string(j)                                            // (rule+1) * 10^j: just past the rule
                                 : rs + (P(34) ? ".5" : P(50) ? ".4999999" : ".5000001") + "e" + std::to_string(j)); break;   // around the tie (rule + 1/2) * 10^j
         case 3: c.su = sd(rs + "e" + std::to_string(j)); if (P(30)) c.su = nextafter(c.su, P(50) ? 0.0 : INFINITY); break;
+        case 5: { static const double X[] = {4.9406564584124654e-324, 1e-322, 1e-320, 1e-316, 2.2250738585072014e-308, 1e-305, 1e-300, 1e300, 1.7976931348623157e308};   // the ends of the range: the scale derived from such an su may be beyond what can be formatted (an error result is fine; side effects are not)
+                  c.su = X[R(0, 8)]; break; }
         default: { uint64_t u = ((uint64_t) R(1023 - 60, 1023 + 40) << 52) | (R64() & ((1ULL << 52) - 1)); memcpy(&c.su, &u, 8); break; }
         }
         c.scale = 0;
